@@ -19,6 +19,9 @@ from dst import gen, oracle, simpool, iofault, clock as vclock
 from dst.engine import Violation, ahash
 from dst.machine import Machine, quiet
 
+import emg3d._multiprocessing as _mpmod      # noqa: E402
+_REAL_SOLVE = _mpmod.solve
+
 OPS = ['compute', 'compute', 'get_efield', 'gradient', 'misfit', 'jvec',
        'clean_compute', 'get_hfield', 'jtvec']
 
@@ -87,6 +90,10 @@ class C11(Machine):
                 s = sum(grid2['h' + d])
                 grid2['h' + d] = [round(v * ext / s, 6) for v in
                                   grid2['h' + d]]
+        if not layered and gridding == 'same' and rng.random() < (
+                0.2 if tier == 'thorough' else 0.04):
+            # automatic gridding, bounded to 8..32 cells per direction
+            gridding = rng.choice(['single', 'frequency', 'source', 'both'])
         mw = rng.choice([1, 2, 2, 3, 3, 4, 5, 8, 16, max(2, ntasks),
                          max(2, ntasks - 1), ntasks + 1])
         if tier == 'thorough':
@@ -188,6 +195,8 @@ class C11(Machine):
             out.append(var(file_dir=False))
         if c['gridding'] != 'same':
             out.append(var(gridding='same', grid2=None))
+        if c['gridding'] in ('frequency', 'source', 'both'):
+            out.append(var(gridding='single'))
         if c['max_workers'] > 2:
             out.append(var(max_workers=2))
         s = c['survey']
@@ -231,6 +240,15 @@ class C11(Machine):
                   layered=cfg['layered'], name='c11')
         if cfg['gridding'] == 'input':
             kw['gridding_opts'] = gen.build_grid(cfg['grid2'])
+        elif cfg['gridding'] != 'same':
+            g = cfg['grid']
+            kw['gridding_opts'] = {
+                'domain': {d: [g['origin'][i] + 0.25 * sum(g['h' + d]),
+                               g['origin'][i] + 0.75 * sum(g['h' + d])]
+                           for i, d in enumerate('xyz')},
+                'min_width_limits': [100.0, 300.0], 'max_buffer': 1500.0,
+                'stretching': [1.0, 1.5], 'cell_numbers': [8, 16, 32],
+                'lambda_factor': 0.5}
         if cfg['file_dir'] and not reference:
             kw['file_dir'] = os.path.join(scratch, 'files')
         with warnings.catch_warnings():
@@ -639,6 +657,95 @@ class C11(Machine):
                         n += 1
         ctx.stats.fault('decoy_files')
         ctx.stats.probe('decoy_files_written', n)
+
+
+    # -- stub validation on the real pool (thorough tier) -------------------
+    def post_batch(self, tier, seed, log):
+        """Re-run a sample of fault-free workloads on the *real*
+        ProcessPoolExecutor with adversarial sleeps and compare bytes with
+        the sequential reference.  Not a simulated run: its nondeterminism
+        is not controlled; it validates the stub's fidelity and covers the
+        worker-global-state gap.  A mismatch is a harness error."""
+        from dst import runner
+        n = int(os.environ.get('VERIF_REALPOOL',
+                               12 if tier == 'thorough' else 0))
+        done, errs = 0, []
+        for i in range(4000):
+            if done >= n:
+                break
+            rs, case = runner.gen_case(self, seed, 'thorough', i)
+            cfg = case['config']
+            if cfg['max_workers'] < 2 or cfg['layered']:
+                continue
+            for op in case['ops']:
+                for k in ('faults', 'iofaults', 'decoys', 'clock_jump'):
+                    op.pop(k, None)
+            st, out = runner.run_isolated(
+                lambda: self._real_pool_run(case, rs), 600)
+            done += 1
+            if st != 'ok':
+                errs.append(f'real-pool run {i} crashed: {out}')
+            elif out:
+                errs.append(f'real-pool run {i}: {out}')
+        log(f"  real-pool validation: {done} workloads, {len(errs)} "
+            f"mismatches")
+        return {'real_pool_validation': {'workloads': done,
+                                         'mismatches': len(errs)}}, errs
+
+    def _real_pool_run(self, case, rs):
+        import tempfile
+        import shutil
+        import emg3d._multiprocessing as mp
+        from dst.engine import Ctx
+        cfg = case['config']
+        scratch = tempfile.mkdtemp(prefix='dst-C11real-')
+        ctx = Ctx('C11', rs, scratch=scratch)
+        real_solve, real_tqdm = mp.solve, mp.tqdm
+        try:
+            with vclock.installed(ctx.clock, ctx.stats), quiet():
+                sim = self._build(cfg, scratch, False)
+                ref = self._build(cfg, scratch, True)
+                for op in case['ops']:
+                    mp.solve = _slow_solve
+                    if cfg['backend'] == 'plain':
+                        mp.tqdm = None
+                    try:
+                        a = _safe(lambda: self._apply(sim, op, cfg))
+                    finally:
+                        mp.solve, mp.tqdm = real_solve, real_tqdm
+                    b = _safe(lambda: apply_ref(self, ref, op, cfg))
+                    if a[0] != b[0] or (a[0] == 'ok' and (
+                            (a[1] is None) != (b[1] is None) or (
+                                a[1] is not None and
+                                ahash(a[1]) != ahash(b[1])))):
+                        return f"{op['op']}: outcome differs on the real pool"
+                    x, y = self._snapshot(sim), self._snapshot(ref)
+                    for k in sorted(set(x) | set(y)):
+                        if not k.startswith('_') and x.get(k) != y.get(k):
+                            return (f"{op['op']}: {k} differs between the "
+                                    f"real pool and the sequential reference")
+            return ''
+        finally:
+            mp.solve, mp.tqdm = real_solve, real_tqdm
+            shutil.rmtree(scratch, ignore_errors=True)
+
+
+def _slow_solve(inp):
+    """`_multiprocessing.solve` with an adversarial delay: later tasks are
+    shorter, so that they tend to finish first on the real pool."""
+    import time
+    import emg3d._multiprocessing as mp
+    _slow_solve.n = getattr(_slow_solve, 'n', 0) + 1
+    key = inp if isinstance(inp, str) else str(inp.get('frequency', ''))
+    time.sleep(0.002 * (sum(map(ord, key[-12:])) % 23))
+    return _REAL_SOLVE(inp)
+
+
+def _safe(f):
+    try:
+        return ('ok', f())
+    except Exception as e:      # noqa
+        return ('exc', type(e).__name__)
 
 
 class _Sink:
